@@ -415,4 +415,36 @@ def run_send(c, is_async):
            'raised_attempt': raised_attempt, 'error_event_attempts': list(ERROR_ATTEMPTS)}
     if c.get('tag') == 'relate':
         out['value_call'] = value_via_call(c, is_async)
+    if c.get('tag') == 'trace' and single and req['req']['id'] is not None and supplied is not None and not c.get('session') \
+            and 'req_retry' not in c and not c.get('overlap'):
+        out['trace_dunder'] = trace_via_dunder(c, is_async)
     return out
+
+
+def trace_via_dunder(c, is_async):
+    """the same single call through the call-operator form `client(method, *args, _trace_ctx=ctx)`"""
+    cl = c['client']
+    spec = c['request']['req']
+    script = _Script(c['attempts'])
+    trace, ctxs = [], []
+    supplied = SimpleNamespace()
+    kw = client_kwargs(cl)
+    kw['tracers'] = [RecTracer(i, trace, ctxs, supplied) for i in range(int(cl['tracers']))]
+    kw['retry_strategy'] = make_strategy(cl.get('retry'))
+    kw['id_gen_impl'] = _fixed_ids([spec] * 8)
+    client = (AsyncScriptClient if is_async else ScriptClient)(script, **kw)
+    a, k = _args_of(spec)
+    sleeps = []
+
+    async def fake_asleep(d):
+        sleeps.append(d)
+    try:
+        if is_async:
+            with mock.patch.object(retry_mod.asyncio, 'sleep', fake_asleep):
+                S.loop().run_until_complete(client(spec['method'], *a, _trace_ctx=supplied, **k))
+        else:
+            with mock.patch.object(retry_mod.time, 'sleep', sleeps.append):
+                client(spec['method'], *a, _trace_ctx=supplied, **k)
+    except BaseException:  # noqa: the outcome is compared elsewhere; here only what the tracers were told
+        pass
+    return trace
